@@ -131,6 +131,27 @@ def check(run, model, tier):
                 run.inst('DELEGATE.pubsub', f, 'running: calls %s once unless the keyed guard skips it' % inner_nm, True, obligation=True)
                 for t in guards:
                     check_keydep(run, model, cg, f, t, need, fab)
+                # ... and it must be the *only* condition: whatever else has to hold before the hand-over can fail while the fabric does not know this queue,
+                # and the subscription is silently dropped
+                from sa.boolflow import must_atoms as _ma
+                for ic in inner_calls:
+                    atoms = _ma(g, ic, f.node, params=f.params)
+                    extra = []
+                    for a_ in sorted(atoms):
+                        txt = a_[0]
+                        if 'thread_running' in txt or (a_[1] in ('Is', 'IsNot', 'Eq', 'NotEq') and 'thread_running' in a_[2]):
+                            continue
+                        if a_[1] == 'Falsy' and txt.startswith(selfn + '.subscribed('):
+                            continue
+                        if a_[1] in ('Is', 'Eq') and a_[2] == 'False' and txt.startswith(selfn + '.subscribed('):
+                            continue
+                        if a_[0] == 'False' and a_[1] in ('Is', 'Eq') and a_[2].startswith(selfn + '.subscribed('):
+                            continue
+                        extra.append(a_)
+                    run.inst('DELEGATE.pubsub', f, 'running: nothing but "the fabric does not know this queue yet" decides the hand-over', not extra,
+                             '' if not extra else ('with the thread running, %s hands the request to the fabric only if %s also holds: when it does not, the call returns without '
+                                                   'subscribing although the fabric has no registration for this queue - later publications of the signal never arrive'
+                                                   % (nm, ' and '.join('%s %s %s' % a_ for a_ in extra))), node=ic.ast, obligation=True)
             else:
                 run.inst('DELEGATE.pubsub', f, 'running: calls %s' % inner_nm, False,
                          'with the thread running, %s calls %s %s times on some path' % (nm, inner_nm, c1), obligation=True)
